@@ -9,4 +9,14 @@ if [ ! -x bin/gosym ] || [ -n "$(find engine -newer bin/gosym -name '*.go' 2>/de
   (cd engine && go build -o /verif/bin/gosym .)
 fi
 prop="$1"; tier="$2"; shift 2
+if [ "$prop" = "C14" ]; then
+  # regenerate bytecode, manifest and debug info of the corpus with /repo's current compiler
+  mkdir -p work
+  echo '{"Replace":{"/repo/internal/vfc14gen/main.go":"/verif/tools/c14gen/main.go"}}' > work/c14gen_overlay.json
+  if ! (cd /repo && go run -overlay /verif/work/c14gen_overlay.json ./internal/vfc14gen /verif/harness/C14/corpus/corpus.go /verif/harness/C14/zz_data.go /verif/harness/C14/zz_corpus.go) > work/c14gen.log 2>&1; then
+    echo "INCONCLUSIVE property=C14 reason=the current compiler does not build or does not compile the corpus: $(head -c 300 work/c14gen.log | tr '\n' ' ')"
+    bin/gosym evidence-inconclusive C14 "$tier" "corpus compilation failed" 2>/dev/null || true
+    exit 0
+  fi
+fi
 exec bin/gosym check "$prop" -tier "$tier" "$@"
